@@ -5,10 +5,47 @@ import sys
 
 PROPERTY = "C02"
 LEVEL = "model_checking"
-FUNCTIONS = ["process_block"]
-TRUSTED = []
-ASSUMPTIONS = []
-EXPLANATION = ""
+FUNCTIONS = [
+    "process_block", "dequeue_block", "store_io_block", "process_completed_block",
+    "process_completed_fragment", "release_old_block", "sqfs_block_processor_sync",
+    "sqfs_block_processor_finish", "get_new_block", "enqueue_block", "get_source_date_epoch",
+    "threadpool_serial.c: submit", "threadpool_serial.c: dequeue", "threadpool_serial.c: get_status",
+]
+TRUSTED = [
+    "thread_pool_t as seen by the block processor: the abstract FIFO / exactly-once / sticky-status contract; that threadpool.c "
+    "and threadpool_serial.c both meet it is C09 (monitor proof) and C02.serial_equiv (harness/C02/bp2_env.h)",
+    "sqfs_compressor_t.do_block: writes only out[0..r), r <= outsize, and is deterministic (same input, same result); "
+    "xxh32: a function of the bytes it is given",
+    "sqfs_block_writer_t.write_data_block: any result <= 0; hash table search/insert, sqfs_frag_table_append, "
+    "sqfs_inode_* helpers: any result (contracts in frag_seq.c)",
+    "glibc isdigit(): table lookup, modelled with the \"C\" locale table; getenv(): returns NULL or any string; fprintf: no effect",
+    "static_scan.py: goto-cc front end + goto-instrument --show-goto-functions list every call and address-taken function of a translation unit",
+]
+ASSUMPTIONS = [
+    "NOT decided: real thread schedules (see C09), determinism of the codec libraries themselves, umask/locale effects inside libc, "
+    "the kernel; the composition of the per-function obligations into 'byte-identical image' is the rely/guarantee argument in "
+    "EXPLANATION, not a single machine-checked theorem",
+    "C02.static.no_ambient_inputs is a STATIC scan of the packers' whole link set (call targets and address-taken functions per "
+    "translation unit), reported with label static(...), not a proof: it does not see calls inside libc / codec libraries nor "
+    "data that is itself an input (file times, ids from stat)",
+    "bounded: blocks of <= 8 bytes (typed wrappers), <= 2 blocks inside the pool and <= 2 in io_queue per dequeue_block call with the "
+    "block kinds (data / manual / fragment block) as case parameters, io_queue <= 3 for store_io_block, <= 2 drain calls in "
+    "get_new_block, SOURCE_DATE_EPOCH strings of <= 11 bytes; sequence numbers, sizes, flags outside the kind bits, data symbolic",
+    "io sequence counters do not wrap (fewer than 2^32 - 256 blocks per image)",
+    "dequeue_block is used through its contract in finish/sync/get_new_block (fails, or takes back at least one block and is the "
+    "only function that numbers data blocks) - established by io_order.c for the bounded shapes",
+    "block writer, deduplication, fragment table contents, post_process.c (inode numbering) are other properties' business "
+    "(C08, C03, C11); os_get_num_jobs/sqfs_writer_cfg_init are covered only by the static scan and the fact that num_workers "
+    "is passed to thread_pool_create alone",
+]
+EXPLANATION = ("rely/guarantee: (1) worker side - process_block writes only its block and its own scratch (DFCC assigns) and its result "
+               "is a function of the block and the compressor contract, whoever runs it; (2) main side, against the abstract FIFO "
+               "pool contract shared by both pool implementations (C09, C02.serial_equiv) - I/O sequence numbers are handed out on "
+               "the main thread in hand-back order (data blocks, manual submissions) or at the overflow / finish event (fragment "
+               "blocks), never at completion; store_io_block keeps io_queue sorted and dequeue_block writes block k only when "
+               "io_deq_seq_num = k, so the write sequence is 0,1,2,... - a function of the submission order alone; (3) the "
+               "backlog only decides when dequeue_block runs (get_new_block, sync), never what it numbers; (4) the only "
+               "environment input is SOURCE_DATE_EPOCH (static scan + harness)")
 
 _HERE = os.path.dirname(os.path.abspath(__file__))
 _REPO = os.environ.get("VERIF_REPO", "/repo")
@@ -56,7 +93,7 @@ BP_FP = {"do_block": "stub_do_block", "read_at": "stub_unreach_read_at",
          "set_worker_ptr": "stub_unreach_set_worker_ptr"}
 
 IO_FP = {"dequeue": "stub_dequeue", "get_status": "stub_get_status",
-         "write_data_block": "stub_write_data_block"}
+         "write_data_block": "stub_write_data_block", "submit": "stub_unreach_submit"}
 
 
 def _io_cases():
@@ -85,16 +122,21 @@ HARNESSES = [
          timeout=600, native=False, cases=[dict(id="scan", defines=_StaticDefs(), tier="quick")]),
     dict(name="worker_frame", file="process_block.c", label="bounded(block size <= 8)",
          mode="dfcc", enforce="cs_process_block", native=False, fp=BP_FP, unwind=10,
-         timeout=600, cases=[dict(id="bs8", defines={"BS": 8, "WORKER_FRAME": None}, tier="quick")]),
+         timeout=600, cases=[dict(id="bs8", defines={"BS": 8, "WORKER_FRAME": None}, tier="quick"),
+                            dict(id="bs16", defines={"BS": 16, "WORKER_FRAME": None}, unwind=18,
+                                 label="bounded(block size <= 16)", tier="thorough")]),
     dict(name="worker_deterministic", file="process_block.c", label="bounded(block size <= 8)",
          fp=BP_FP, unwind=10, timeout=600,
-         cases=[dict(id="bs8", defines={"BS": 8}, tier="quick")]),
+         cases=[dict(id="bs8", defines={"BS": 8}, tier="quick"),
+                dict(id="bs16", defines={"BS": 16}, unwind=18, label="bounded(block size <= 16)",
+                     tier="thorough")]),
     dict(name="io_order", file="io_order.c", label="bounded(blocks in pool <= 2, io_queue <= 2)",
          fp=IO_FP, unwind=8, timeout=600, nochecks=["--conversion-check"],
          cases=_io_cases()),
     dict(name="store_io_block", file="store_io_block.c", label="bounded(io_queue <= 3)",
          fp={"*": "harness"}, unwind=7, timeout=600,
-         cases=[dict(id="q3", defines={"QL": 3}, tier="quick")]),
+         cases=[dict(id="q3", defines={"QL": 3}, tier="quick"),
+                dict(id="q4", defines={"QL": 4}, unwind=8, label="bounded(io_queue <= 4)", tier="thorough")]),
     dict(name="frag_seq", file="frag_seq.c", label="bounded(block size <= 8)",
          fp={"*": "harness"}, unwind=10, timeout=600, nochecks=["--conversion-check"],
          cases=[dict(id="fb%d_dd%d_ft%d" % (a, b, c), tier="quick",
@@ -112,6 +154,13 @@ HARNESSES = [
          defines={"OP_ENQUEUE": None}, unwind=4, timeout=600,
          cases=[dict(id="default", tier="quick")]),
     dict(name="source_date_epoch", file="sde.c", label="bounded(len<=11)",
-         unwind=20, timeout=600, nochecks=["--conversion-check"],
-         cases=[dict(id="len11", defines={"LEN": 11}, tier="quick")]),
+         unwind=20, timeout=600, nochecks=["--conversion-check"], solver="cadical",
+         cases=[dict(id="len11", defines={"LEN": 11}, tier="quick"),
+                dict(id="len13", defines={"LEN": 13}, unwind=22, label="bounded(len<=13)", tier="thorough")]),
+    dict(name="serial_equiv_submit", file="serial_equiv.c", label="bounded(list nodes <= 3)",
+         timeout=600, malloc_fail=True, defines={"OP_SUBMIT": None},
+         cases=[dict(id="k3", defines={"KQ": 3, "KR": 2}, unwind=7, tier="quick")]),
+    dict(name="serial_equiv_dequeue", file="serial_equiv.c", label="bounded(list nodes <= 3)",
+         timeout=600, fp={"fun": "stub_fun"}, defines={"OP_DEQUEUE": None},
+         cases=[dict(id="k3", defines={"KQ": 3, "KR": 2}, unwind=7, tier="quick")]),
 ]
